@@ -406,29 +406,29 @@ fn boxed_op(op: &str, a: &[&str]) -> Option<String> {
                 bhexlen
             )
         }
-        // `|=` iterates the receiver's limbs only (zip): separate op, value printed without the limb count
+        // `|=` (was a zip over the receiver's limbs before fix e52b2f3): kept as a separate op
         ("or_assign", [ny, y, f]) => {
             let y = arg!(boxed(y, arg!(dec(ny))));
             match *f {
                 "0" => {
                     let mut a = x;
                     a |= y;
-                    bhex(&a)
+                    bhexlen(&a)
                 }
                 "1" => {
                     let mut a = x;
                     a |= &y;
-                    bhex(&a)
+                    bhexlen(&a)
                 }
                 "2" => {
                     let mut a = Wrapping(x);
                     a |= Wrapping(y);
-                    bhex(&a.0)
+                    bhexlen(&a.0)
                 }
                 "3" => {
                     let mut a = Wrapping(x);
                     a |= &Wrapping(y);
-                    bhex(&a.0)
+                    bhexlen(&a.0)
                 }
                 _ => return Some(BAD.into()),
             }
